@@ -513,12 +513,17 @@ impl OsIpcReceiverSet {
 
     pub fn add(&mut self, receiver: OsIpcReceiver) -> Result<u64, UnixError> {
         let last_index = self.incrementor.next().unwrap();
-        let fd = receiver.consume_fd();
+        let fd = receiver.fd.get();
         let fd_token = Token(fd as usize);
-        let poll_entry = PollEntry { id: last_index, fd };
         self.poll
             .registry()
             .register(&mut SourceFd(&fd), fd_token, Interest::READABLE)?;
+        // Only take the descriptor out of the receiver once registration succeeded;
+        // on failure the receiver is dropped and closes it.
+        let poll_entry = PollEntry {
+            id: last_index,
+            fd: receiver.consume_fd(),
+        };
         self.pollfds.insert(fd_token, poll_entry);
         Ok(last_index)
     }
